@@ -23,11 +23,12 @@ META = {
     'engine': 'coq+extraction+harness',
 }
 
-FIELDS = ['type', 'text', 'file', 'line', 'function', 'category', 'time', 'steady_time', 'thread_id', 'formatted', 'attributes', 'seq_number']
+FIELDS = ['type', 'text', 'file', 'line', 'function', 'category', 'time (msecs~timeSpec~offsetFromUtc~ISO)', 'steady_time', 'thread_id', 'formatted', 'attributes', 'seq_number']
 
 
 def parse_out(out):
     hdr, ev, tw, asy = None, [], {}, []
+    flushes = []
     for l in out.splitlines():
         if l.startswith('RUN '):
             hdr = l
@@ -39,7 +40,9 @@ def parse_out(out):
         elif l.startswith('AS '):
             _, k, p, i, w, d = l.split(' ', 5)
             asy.append((int(k), int(p), int(i), int(w), d.split('|')))
-    return hdr, ev, tw, asy
+        elif l.startswith('FL '):
+            flushes.append(tuple(int(x) for x in l.split()[1:4]))
+    return hdr, ev, tw, asy, flushes
 
 
 def canon(f):
@@ -57,8 +60,10 @@ def content_diff(mode, twin, got):
     bad = []
     for k in range(11):
         if mode == 'logger' and k == 6:
-            lo, hi = (int(x) for x in t[6].split('..'))
-            if not (lo <= int(g[6]) <= hi):
+            # twin: lo..hi~timeSpec~offsetFromUtc~*   delivered: msecs~timeSpec~offsetFromUtc~ISO text
+            tt, gt = t[6].split('~'), g[6].split('~')
+            lo, hi = (int(x) for x in tt[0].split('..'))
+            if not (lo <= int(gt[0]) <= hi) or tt[1:3] != gt[1:3]:
                 bad.append(k)
         elif mode == 'logger' and k == 7:
             continue
@@ -116,6 +121,9 @@ def order_oracles(ev, n, per):
 
 def run_one(impl, cfg, timeout=120, env=None):
     line = '%s %d %d %d %d %d %d' % (cfg['mode'], cfg['n'], cfg['per'], cfg['seed'], cfg['perturb'], cfg['sinkdelay'], cfg.get('stall', 0))
+    env = dict(env or {})
+    if cfg.get('tz'):
+        env['TZ'] = cfg['tz']       # a POSIX zone that is not UTC (no tz database needed): local time != UTC for the child
     rc, out, err = vlib.sh([impl], inp=(line + '\n').encode(), timeout=timeout, env=env)
     return (rc,) + parse_out(out) + (err,)
 
@@ -126,7 +134,8 @@ def gen_configs(chk, reps, total):
         for mode in ('bare', 'logger'):
             for n in (1, 2, 4, 8, 16):
                 cfgs.append({'mode': mode, 'n': n, 'per': max(2, total // n), 'seed': chk.rng.randrange(1, 2 ** 31),
-                             'perturb': chk.rng.choice([0, 1, 2, 2, 3]), 'sinkdelay': chk.rng.choice([0, 1, 2, 2]), 'stall': 0})
+                             'perturb': chk.rng.choice([0, 1, 2, 2, 3]), 'sinkdelay': chk.rng.choice([0, 1, 2, 2]), 'stall': 0,
+                             'tz': chk.rng.choice(['DEMO-05:30', 'DEMO-05:30', 'XYZ+03', ''])})
     return cfgs
 
 
@@ -138,7 +147,7 @@ def stall_configs(chk, total, ms):
 
 
 def evaluate(chk, model, cfg, res, stats, report):
-    rc, hdr, ev, tw, asy, err = res
+    rc, hdr, ev, tw, asy, flushes, err = res
     n, per, mode = cfg['n'], cfg['per'], cfg['mode']
     if rc != 0 or hdr is None or 'AddressSanitizer' in err or 'runtime error' in err:
         kind = 'hang' if rc == 124 else ('sanitizer' if ('AddressSanitizer' in err or 'runtime error' in err) else 'crash')
@@ -182,6 +191,14 @@ def evaluate(chk, model, cfg, res, stats, report):
             report('message %d of producer %d was run through the sink on a thread that is not the logger thread' % (i, p),
                    dict(cfg, kind='off_worker', producer=p, index=i, delivery=k), 'off_worker')
             break
+    # --- every sink entry point (send AND flush) on the logger thread only
+    stats['fatal_msgs'] += sum(1 for v in tw.values() if v[0] == '3')
+    off = [f for f in flushes if f[2] != 1]
+    if off:
+        stats['kinds']['off_worker'] = stats['kinds'].get('off_worker', 0) + 1
+        report('Sink::flush() was entered on a producer thread (producer %d, while logging its message %d) although the logger runs in its own thread'
+               % (off[0][0], off[0][1]), dict(cfg, kind='off_worker', entry='flush', producer=off[0][0], index=off[0][1],
+                                               message_type=(tw.get((off[0][0], off[0][1])) or ['?'])[0], flush_entries_off_worker=len(off)), 'off_worker')
     stats['null_ptr_msgs'] += sum(1 for v in tw.values() if v[2] == '-')
     stats['preformatted_msgs'] += sum(1 for v in tw.values() if v[9] != '-')
     # --- model copy == implementation (bare mode: the twin dump is the original message)
@@ -247,7 +264,7 @@ def run():
         cfgs += gen_configs(chk, 3, 1200) + stall_configs(chk, 40000, 2500)
     stats = {'events': 0, 'deliveries': 0, 'kinds': {}, 'model_copies': 0, 'model_disagreements': 0, 'acceptor_runs': 0,
              'max_backlog': 0, 'runs_with_backlog': 0, 'null_ptr_msgs': 0, 'preformatted_msgs': 0,
-             'stalled_sink_runs': 0, 'max_call_ms_while_sink_stalled': 0}
+             'stalled_sink_runs': 0, 'max_call_ms_while_sink_stalled': 0, 'fatal_msgs': 0}
     reported = [0]
 
     def report(what, replay, kind):
@@ -277,7 +294,9 @@ def run():
                     'distinct_nontrivial': sum(1 for c, r in results if r[1] is not None and len(r[4]) >= 2 * c['n']),
                     'rule': 'runs = repetitions x {bare OwnThreadHandler<SimplePipeline>, installed Logger via QMessageLogger} in own-thread mode x '
                             'producers in {1,2,4,8,16}, ~1200 messages per run, heap source-location buffers scrubbed+freed after the call, '
-                            'every 5th message null file/function, every 7th null category, seeded perturbation at the schedule points, '
+                            'every 5th message null file/function, every 7th null category, all five message types incl. QtFatalMsg (fatal via '
+                            'process()/Logger::processMessage directly), children run under non-UTC POSIX zones (TZ=DEMO-05:30 / XYZ+03), '
+                            'the time is compared as msecs+timeSpec+offsetFromUtc+ISO text, send() and flush() entries must be on the logger thread, seeded perturbation at the schedule points, '
                             'slow/fast sink, plus runs with a sink stalled for 1.5 s under a backlog of >= 10 400 messages (no call may wait for it); '
                             'non-trivial = at least two deliveries per producer',
                     'events_recorded': stats['events'], 'deliveries_compared_with_twin': stats['deliveries'],
@@ -288,6 +307,8 @@ def run():
                     'mode_histogram': {m: sum(1 for c, _ in results if c['mode'] == m) for m in ('bare', 'logger')},
                     'producers_histogram': {str(n): sum(1 for c, _ in results if c['n'] == n) for n in (1, 2, 4, 8, 16)},
                     'sinkdelay_histogram': {str(d): sum(1 for c, _ in results if c['sinkdelay'] == d) for d in range(3)},
+                    'fatal_level_messages': stats['fatal_msgs'],
+                    'tz_histogram': {z or 'inherited': sum(1 for c, _ in results if c.get('tz', '') == z) for z in ('DEMO-05:30', 'XYZ+03', '')},
                     'stalled_sink_runs': stats['stalled_sink_runs'], 'max_call_ms_while_sink_stalled': stats['max_call_ms_while_sink_stalled'],
                     'violation_kinds': stats['kinds'], 'sanitizer_variant': san})
     chk.samples = [{'config': c, 'header': r[1], 'first_events': r[2][:14]} for c, r in results[:3]]
@@ -304,12 +325,13 @@ def replay(path):
     model = vlib.build_model('async')
     impl = vlib.build_harness('async', 'san' if r.get('sanitizer') else '')
     cfg = {k: r.get(k, 0) for k in ('mode', 'n', 'per', 'seed', 'perturb', 'sinkdelay', 'stall')}
+    cfg['tz'] = r.get('tz', '')
     print('recorded:', r.get('kind'), r.get('detail') or r.get('fields'), {k: r.get(k) for k in ('synchronous', 'asynchronous') if k in r})
     for k in range(3):
-        rc, hdr, ev, tw, asy, err = run_one(impl, cfg)
+        rc, hdr, ev, tw, asy, flushes, err = run_one(impl, cfg)
         diffs = [(p, i, [FIELDS[b] for b in content_diff(cfg['mode'], tw[(p, i)], d)]) for _, p, i, _, d in asy if (p, i) in tw and content_diff(cfg['mode'], tw[(p, i)], d)]
         line = '%d %s %s' % (cfg['n'], ','.join([str(cfg['per'])] * cfg['n']), ' '.join(ev))
         print('re-run %d: rc=%d %s content differences: %s; order: %s; acceptor: %s; off-worker deliveries: %d'
               % (k, rc, hdr, diffs[:2], order_oracles(ev, cfg['n'], cfg['per'])[:2], vlib.run_lines(model, [line], ['trace'])[1],
-                 sum(1 for a in asy if a[3] != 1)))
+                 sum(1 for a in asy if a[3] != 1) + sum(1 for f in flushes if f[2] != 1)))
     return 0
